@@ -438,6 +438,9 @@ func c20Ops() []c20Op {
 	}
 	for _, n := range []string{"a", "A"} {
 		for _, f := range []string{"n=1", "n+=1", "n++", "++n", "--n", "n", "m=n=2", "1/0", "n=1/0", "n=08", "0&&(n=7)", "0&&1/0", "1||(n=08)", "n=0?08:5", "(1||09)+(n=7)", "-1||(n=7)", "-1&&(n=7)", "m=++n", "m=--n", "m=n++"} {
+			if n == "A" && (strings.HasPrefix(f, "-1") || strings.HasPrefix(f, "m=++") || strings.HasPrefix(f, "m=--") || f == "m=n++") {
+				continue // (the forms added in rounds 10 and 11: one variable is enough)
+			}
 			text := strings.ReplaceAll(f, "n", n)
 			text = strings.ReplaceAll(text, "m=", "b=")
 			ops = append(ops, c20Op{Kind: "eval", Name: n, Val: f, Text: text})
